@@ -29,6 +29,31 @@ def digest(v):
     return repr(v)
 
 
+_NUM = None
+
+
+def same_reply(a, b, rel=1e-11):
+    """Two reply digests are the same reply: identical text, floats allowed to differ by rounding noise (a refactoring may
+    sum in another order on a cached path)."""
+    if a == b:
+        return True
+    import re
+    global _NUM
+    if _NUM is None:
+        _NUM = re.compile(r"-?\d+\.\d+(?:[eE][-+]?\d+)?|-?\d+[eE][-+]?\d+")
+    ta, tb = _NUM.split(a), _NUM.split(b)
+    if ta != tb:
+        return False
+    na, nb = _NUM.findall(a), _NUM.findall(b)
+    if len(na) != len(nb):
+        return False
+    for x, y in zip(na, nb):
+        fx_, fy = float(x), float(y)
+        if fx_ != fy and abs(fx_ - fy) > rel * max(1.0, abs(fx_), abs(fy)):
+            return False
+    return True
+
+
 def scribble(v):
     """The caller owns what a query returns: change it in place (a later query must not see that)."""
     import numpy as np
@@ -149,18 +174,25 @@ class Defaults:
 
 
 def project(o):
-    """Abstract state of a live real object."""
-    so = o.SeqObj
-    return {"alive": True, "seq": list(so.seq), "dmaxSet": bool(so.dmax != -1), "permSet": so.seqDeltaMax is not None,
-            "sites": [int(i) + 1 for i in so.phosphosites], "pal": dict(so.aminoAcidColorMap)}
+    """Abstract state of a live real object: sequence and sites through the public API; the palette and the two cache flags
+    are hidden attributes (no public getter) -- when a refactoring has renamed them they are reported as unknown (None)."""
+    so = getattr(o, "SeqObj", None)
+    sites = common.call(o.get_phosphosites)
+    pal = getattr(so, "aminoAcidColorMap", None)
+    dmax = getattr(so, "dmax", None)
+    return {"alive": True, "seq": list(o.get_sequence()), "dmaxSet": None if dmax is None else bool(dmax != -1),
+            "permSet": None if not hasattr(so, "seqDeltaMax") else so.seqDeltaMax is not None,
+            "sites": [int(i) for i in sites[1]] if sites[0] == "ok" else ["?"], "pal": dict(pal) if isinstance(pal, dict) else None}
 
 
 def twin(lc, o):
     """A freshly constructed object with the same sequence, sites and palette."""
-    so = o.SeqObj
-    tw = lc.SP(so.seq)
-    tw.SeqObj.phosphosites = list(so.phosphosites)
-    tw.SeqObj.aminoAcidColorMap = dict(so.aminoAcidColorMap)
+    pr = project(o)
+    tw = lc.SP("".join(pr["seq"]))
+    if pr["sites"]:
+        common.call(tw.set_phosphosites, list(pr["sites"]))
+    if pr["pal"] is not None:
+        common.call(tw.set_HTMLColorResiduePalette, dict(pr["pal"]))
     return tw
 
 
